@@ -514,7 +514,73 @@ def rule_h(ctx: Ctx) -> None:
     ctx.count("memoised_functions", n)
 
 
-RULES = [_all, rule_f, rule_g, rule_h]
+def _lazy_foreign_table_iterations(tree: ast.AST) -> list[tuple[ast.comprehension, str, str]]:
+    """Class-/module-level comprehensions whose iterable is <Name>.<TABLE>[.items()/.keys()/.values()] -> (comprehension, owner name, table)."""
+    out = []
+    func_nodes = set()
+    for fn in ast.walk(tree):
+        if isinstance(fn, (ast.FunctionDef, ast.AsyncFunctionDef, ast.Lambda)):
+            for x in ast.walk(fn):
+                func_nodes.add(id(x))
+    for comp in ast.walk(tree):
+        if not isinstance(comp, ast.comprehension) or id(comp) in func_nodes:
+            continue
+        it = comp.iter
+        if isinstance(it, ast.Call) and isinstance(it.func, ast.Attribute) and it.func.attr in ("items", "keys", "values") and not it.args:
+            it = it.func.value
+        if isinstance(it, ast.Attribute) and it.attr.isupper() and isinstance(it.value, ast.Name):
+            out.append((comp, it.value.id, it.attr))
+    return out
+
+
+def rule_i(ctx: Ctx) -> None:
+    ctx.rule("C19.i", "import-time iteration over another generator's table does not race with the dialect metaclass: the metaclass prunes <Generator>.TRANSFORMS in place when the owning "
+                      "dialect class is created; a class-body comprehension in sqlglot/generators/<x>.py that iterates <OtherGenerator>.TRANSFORMS lazily (not a `{**table}` / dict() / "
+                      ".copy() snapshot) is therefore only safe when dialects/<x>.py imports the owning dialect module before it imports generators/<x>.py — otherwise first use of the "
+                      "two dialects from two threads can resize the dict during the iteration (RuntimeError out of the import)")
+    ctx.require(len(_lazy_foreign_table_iterations(ast.parse("class A(B):\n    TRANSFORMS = {k: v for k, v in B.TRANSFORMS.items() if k}\n"))) == 1, "positive control failed")
+    ctx.require(len(_lazy_foreign_table_iterations(ast.parse("class A(B):\n    TRANSFORMS = {k: v for k, v in {**B.TRANSFORMS}.items() if k}\n"))) == 0, "negative control failed")
+    n = 0
+    for name, m in sorted(ctx.repo.modules.items()):
+        if not name.startswith("sqlglot.generators."):
+            continue
+        stem = name.rsplit(".", 1)[1]
+        # Name -> generator module it was imported from
+        origin: dict[str, str] = {}
+        for st in m.tree.body:
+            if isinstance(st, ast.ImportFrom) and st.module and st.module.startswith("sqlglot.generators."):
+                for a in st.names:
+                    origin[a.asname or a.name] = st.module.rsplit(".", 1)[1]
+        for comp, owner, table in _lazy_foreign_table_iterations(m.tree):
+            if table != "TRANSFORMS" or owner not in origin or origin[owner] == stem:
+                continue
+            n += 1
+            d1 = origin[owner]
+            inst = f"{name}|{owner}.{table} iterated at import"
+            dm = ctx.repo.modules.get(f"sqlglot.dialects.{stem}")
+            if dm is None:
+                ctx.fail(m, comp.iter, name, comp.iter, f"`{norm(comp.iter)}` is iterated lazily at import time but no dialect module sqlglot.dialects.{stem} orders the imports")
+                continue
+            order = []
+            for st in dm.tree.body:
+                if isinstance(st, ast.ImportFrom) and st.module:
+                    order.append(st.module)
+                elif isinstance(st, ast.Import):
+                    order.extend(a.name for a in st.names)
+            own = f"sqlglot.generators.{stem}"
+            dep = f"sqlglot.dialects.{d1}"
+            if dep in order and own in order and order.index(dep) < order.index(own):
+                ctx.ok(inst, {"iterates": norm(comp.iter), "owning_dialect_imported_first_by": dm.name})
+            else:
+                ctx.fail(m, comp.iter, name, comp.iter,
+                         f"`{norm(comp.iter)}` is iterated lazily while the class body of {name} runs, but {dm.name} does not import {dep} before {own}: if another thread creates the "
+                         f"{d1} dialect class meanwhile, its metaclass pops entries from that very dict and the iteration raises RuntimeError (dictionary changed size); iterate a "
+                         f"snapshot ({{**{owner}.{table}}}) or import the owning dialect first")
+    ctx.count("lazy_foreign_table_iterations", n)
+    ctx.min_instances("lazy_foreign_table_iterations", n, 3)
+
+
+RULES = [_all, rule_f, rule_g, rule_h, rule_i]
 EXPLANATION = (
     "Static race discipline over the complete inventory of process-wide mutable state (module globals, class "
     "attributes, globals()) found by a whole-package write scan: lock coverage of the lazy-import hooks, "
